@@ -585,6 +585,37 @@ def run(repo: Repo, rep: Report, tier: str) -> None:
                   "no early `return False` for an IRConst producer: a constant marked as a coordinate gets a combinator as soon as something else reads it, and readers that "
                   "need a literal (an inlined entity condition) lose it", hlc.loc())
 
+    # ---------------- R22 --------------------------------------------------------------
+    rep.rule("C10-R22", "a declared constant is an input however its value is written: folding treats a constant as fixed unless it is marked `user_declared`, and the mark is set "
+             "where a declaration stores the lowered value under its name — in every branch of lower_decl_stmt that stores the result of `lower_expr(<declared value>)`, "
+             "the call form `Signal a = mk();` included (without it the optimised build folds `a * 2` to a number and drops `a`, the plain build keeps both)")
+    lds22 = repo.func("StatementLowerer.lower_decl_stmt")
+    pm22 = _pm(lds22.node)
+    n22 = 0
+    for st in walk_local(lds22.node):
+        if not (isinstance(st, ast.Assign) and isinstance(st.targets[0], ast.Subscript) and norm(st.targets[0].value) == "self.parent.signal_refs" and isinstance(st.value, ast.Name)):
+            continue
+        blk = pm22.get(st)
+        body = getattr(blk, "body", []) if blk is not None else []
+        if st not in body:
+            body = getattr(blk, "orelse", [])
+        before = body[: body.index(st)] if st in body else []
+        # the value bound here is the lowered declared value: assigned from lower_expr(...) earlier in this block, or (for a nested `if isinstance(value, SignalRef)`
+        # arm) in the enclosing block ahead of the arm
+        def _from_lower_expr(stmts):
+            return any(isinstance(b, ast.Assign) and norm(b.targets[0]) == st.value.id and isinstance(b.value, ast.Call) and call_name(b.value) == "lower_expr" for b in stmts)
+        outer_body = getattr(pm22.get(blk), "body", []) if isinstance(blk, ast.If) and blk is not None else []
+        outer_before = outer_body[: outer_body.index(blk)] if blk in outer_body else []
+        placeholder = any(isinstance(b, ast.Assign) and isinstance(b.targets[0], ast.Tuple) and any(norm(e) == st.value.id for e in b.targets[0].elts) for b in before)
+        src_call = (_from_lower_expr(before) or (not before or not any(isinstance(b, ast.Assign) and norm(b.targets[0]) == st.value.id for b in before)) and _from_lower_expr(outer_before)) and not placeholder
+        if not src_call:
+            continue
+        n22 += 1
+        marks = any("'user_declared'" in norm(x) and isinstance(x, ast.Assign) for b in before for x in ast.walk(b))
+        rep.check(marks, "C10-R22", f"lower_decl_stmt: declaration branch #{n22} marks a constant it declares", "user_declared set before the name is bound" if marks else
+                  "the value is bound to the name without the mark: a constant that reaches this branch (returned by a call) is folded away under optimisation", lds22.loc(st))
+    rep.floor("C10-R22", "declaration branches storing a lowered value", n22, 2)
+
     # ---------------- R21 --------------------------------------------------------------
     rep.rule("C10-R21", "two references are the same operand for CSE only if they come from the same node: every key the CSE pass builds for a reference (`_value_key`, the "
              "SignalRef arm) contains the source id of the reference (after replacement) — a key made of the signal type alone makes reads of two different cells, or two "
